@@ -45,6 +45,8 @@ pub enum HOp {
     PkBytes(u8),
     DropSk(u8),
     DropPk(u8),
+    CloneSk(u8),
+    ClonePk(u8),
 }
 
 #[derive(Clone, Debug, Hash, Serialize, Deserialize)]
@@ -92,6 +94,8 @@ fn op() -> impl Strategy<Value = HOp> {
         2 => any::<u8>().prop_map(HOp::PkBytes),
         1 => any::<u8>().prop_map(HOp::DropSk),
         1 => any::<u8>().prop_map(HOp::DropPk),
+        1 => any::<u8>().prop_map(HOp::CloneSk),
+        1 => any::<u8>().prop_map(HOp::ClonePk),
     ]
 }
 
@@ -334,6 +338,22 @@ pub fn check(focus: Focus, c: &Case, st: &mut Stats) -> CheckResult {
                 let (k, kb) = &pks[*j as usize % pks.len()];
                 if g("pk.into_bytes", || k.to_bytes())? != *kb {
                     mismatch(Focus::Serialise, "pk_bytes_changed", "a public key no longer serialises to the bytes it was created with".into())?;
+                }
+            }
+            HOp::CloneSk(j) => {
+                if !sks.is_empty() && sks.len() < 8 {
+                    let (k, kb) = &sks[*j as usize % sks.len()];
+                    let c2 = (g("sk.clone", || k.clone_box())?, kb.clone());
+                    history.push("clone sk".into());
+                    sks.push(c2);
+                }
+            }
+            HOp::ClonePk(j) => {
+                if !pks.is_empty() && pks.len() < 8 {
+                    let (k, kb) = &pks[*j as usize % pks.len()];
+                    let c2 = (g("pk.clone", || k.clone_box())?, kb.clone());
+                    history.push("clone pk".into());
+                    pks.push(c2);
                 }
             }
             HOp::DropSk(j) => {
